@@ -234,6 +234,8 @@ def g_nplike_sequences(w, kind, cap):
         for off in range(0, cap + 1, 3):
             b = mkbuf(kind, cap)
             for cnt in range((cap - off) // d.itemsize, -1, -1):
+                # the same buffer object, its content set back to the base pattern before every call
+                bufmon.poke(b, 0, bytes(((i * 29 + 11) & 0xFF) for i in range(cap)))
                 val = np.array([(i * 5 + cnt) % 90 for i in range(cnt)], dtype=sdt)
                 try:
                     b.update_from_nplike(off, d, val)
